@@ -17,6 +17,63 @@ class AnalysisError(Exception):
 SKIP_MODULES = {'_version'}
 
 
+def _names_loaded(node, name):
+    return [n for n in ast.walk(node) if isinstance(n, ast.Name) and n.id == name
+            and isinstance(n.ctx, ast.Load)]
+
+
+def inline_test_temporaries(tree):
+    """Normalisation: ``t = E`` immediately followed by ``if t:``, ``if not t:``,
+    ``assert t`` or ``return t``, where ``t`` is bound once and read once in
+    its function, is read as ``if E:`` / ``return E``.  The two spellings are
+    equivalent (one evaluation, same value); the rules are stated on tests and
+    returned expressions, so they should not depend on which one is used.
+    Returns the number of rewrites."""
+    count = 0
+    for fn in [n for n in ast.walk(tree) if isinstance(n, (ast.FunctionDef, ast.AsyncFunctionDef))]:
+        stores, loads = {}, {}
+        for n in ast.walk(fn):
+            if isinstance(n, ast.Name):
+                d = stores if isinstance(n.ctx, (ast.Store, ast.Del)) else loads
+                d[n.id] = d.get(n.id, 0) + 1
+        params = {a.arg for a in fn.args.args + fn.args.kwonlyargs + fn.args.posonlyargs}
+        for holder in ast.walk(fn):
+            for field in ('body', 'orelse', 'finalbody'):
+                block = getattr(holder, field, None)
+                if not (isinstance(block, list) and block and isinstance(block[0], ast.stmt)):
+                    continue
+                i = 0
+                while i + 1 < len(block):
+                    st, nxt = block[i], block[i + 1]
+                    if isinstance(st, ast.Assign) and len(st.targets) == 1 \
+                            and isinstance(st.targets[0], ast.Name):
+                        name = st.targets[0].id
+                        if stores.get(name) == 1 and loads.get(name) == 1 and name not in params:
+                            slot = None
+                            if isinstance(nxt, (ast.If, ast.Assert)):
+                                test = nxt.test
+                                if isinstance(test, ast.Name) and test.id == name:
+                                    slot = ('test', None)
+                                elif isinstance(test, ast.UnaryOp) and isinstance(test.op, ast.Not) \
+                                        and isinstance(test.operand, ast.Name) and test.operand.id == name:
+                                    slot = ('operand', test)
+                            elif isinstance(nxt, ast.Return) and isinstance(nxt.value, ast.Name) \
+                                    and nxt.value.id == name:
+                                slot = ('value', None)
+                            if slot is not None:
+                                if slot[0] == 'test':
+                                    nxt.test = st.value
+                                elif slot[0] == 'operand':
+                                    slot[1].operand = st.value
+                                else:
+                                    nxt.value = st.value
+                                del block[i]
+                                count += 1
+                                continue
+                    i += 1
+    return count
+
+
 class Module:
     def __init__(self, name, path):
         self.name = name
@@ -27,6 +84,7 @@ class Module:
             self.tree = ast.parse(self.src, filename=path)
         except SyntaxError as err:  # a tree that does not compile
             raise AnalysisError('cannot parse {0}: {1}'.format(path, err))
+        self.inlined_temporaries = inline_test_temporaries(self.tree)
         self.funcs = {}      # qualname -> FunctionDef
         self.classes = {}    # name -> ClassDef
         self.func_class = {}  # qualname -> class name or None
